@@ -36,6 +36,27 @@ const EXTRA_PACKET_SIZE_IPV4: usize = 8 + 18 + 20 + 8;
 /// - 8 bit udp header
 const EXTRA_PACKET_SIZE_IPV6: usize = 8 + 18 + 40 + 8;
 
+/// Size in bytes of the buffer that socket workers serialize responses into
+pub fn response_buffer_len(config: &Config) -> usize {
+    #[cfg(all(target_os = "linux", feature = "io-uring"))]
+    if config.network.use_io_uring {
+        return self::uring::RESPONSE_BUF_LEN;
+    }
+
+    let _ = config;
+
+    crate::common::BUFFER_SIZE
+}
+
+/// Largest number of peers for which an announce response fits in a
+/// response buffer of the given size
+///
+/// The longest response is an IPv6 announce response, consisting of 20
+/// bytes of fixed data followed by 18 bytes per peer.
+pub fn max_response_peers_limit(response_buffer_len: usize) -> usize {
+    response_buffer_len.saturating_sub(20) / 18
+}
+
 pub fn run_socket_worker(
     config: Config,
     shared_state: State,
